@@ -275,6 +275,21 @@ class Driver:
         if self.kill_at_iter is not None and it >= self.kill_at_iter:
             self.hard_kill('iter')
 
+    def inner_tick(self, schd):
+        """One pass of the loop in which `cylc reload` waits for preparing
+        tasks to be submitted: that loop blocks the main loop, so the job
+        world has to keep going from here (jobs finish, messages arrive),
+        or a reload issued during a clean stop would wait for ever for
+        jobs that cannot end."""
+        self.inner_ticks = getattr(self, 'inner_ticks', 0) + 1
+        self.vclock.advance(self.policy['dt'])
+        self.world.vtime = self.vclock.now
+        self.world.advance(self.policy['speed'])
+        self.deliver_messages(schd)
+        if self.inner_ticks >= self.policy['iter_cap']:
+            self.capped = True
+            self.end_by_harness(schd, 'iter_cap')
+
     def deliver_messages(self, schd):
         pol = self.policy
         batch = []
